@@ -15,6 +15,7 @@ import (
 	"strings"
 
 	"github.com/sourcegraph/zoekt"
+	"github.com/sourcegraph/zoekt/query"
 	"github.com/sourcegraph/zoekt/verifhooks"
 
 	"verifharness/gen"
@@ -124,7 +125,7 @@ func allowedNames(repos []*repo, c ctxSpec, strict bool) map[string]bool {
 }
 
 // runShardCases: everything about one world at shard level.
-func runShardCases(r *gen.Rand, wd *world, strict bool, nQueries int, fixedQueries []*nq) {
+func runShardCases(r *gen.Rand, wd *world, strict bool, nQueries int, fixedQueries []*nq, fixedTypeRepo *nq) {
 	mode := "strict"
 	if !strict {
 		mode = gen.Pick(r, []string{"", "logging"})
@@ -240,6 +241,134 @@ func runShardCases(r *gen.Rand, wd *world, strict bool, nQueries int, fixedQueri
 		}
 		w.Count("early="+b01(early), 1)
 		w.Count("simplify="+kind, 1)
+	}
+	typeRepoCases(r, wd, sh, strict, class, reposEnc, len(tenantsInShard) > 1, fixedTypeRepo)
+}
+
+// shardStreamer makes a shard searcher a zoekt.Streamer (what typeRepoSearcher wraps)
+type shardStreamer struct{ zoekt.Searcher }
+
+func (s shardStreamer) StreamSearch(ctx context.Context, q query.Q, opts *zoekt.SearchOptions, sender zoekt.Sender) error {
+	res, err := s.Search(ctx, q, opts)
+	if err != nil {
+		return err
+	}
+	sender.Send(res)
+	return nil
+}
+
+// sysCounts: the match tree's verdict per document for q, measured in the system context (and checked against the
+// naive evaluator); early = Search returned before its document loop.
+func sysCounts(sh *shard, q *nq, strict bool) (counts []int, early bool, ok bool) {
+	sys := ctxSpec{Kind: "sys"}
+	res, err := sh.S.Search(mkCtx(sys), q.toQ(), &zoekt.SearchOptions{})
+	if err != nil {
+		return nil, false, false
+	}
+	counts = make([]int, len(sh.Docs))
+	byName := map[string]int{}
+	for i, d := range sh.Docs {
+		byName[sh.Repos[d.Repo].Key+"\x00"+d.D.Name] = i
+		if q.eval(sh.Repos[d.Repo], d.D, nil) {
+			counts[i] = 1
+		}
+	}
+	var got []string
+	for _, f := range res.Files {
+		got = append(got, fmt.Sprintf("%s:%d:%s", tok(f.Repository), f.RepositoryID, tok(f.FileName)))
+		for i, d := range sh.Docs {
+			rp := sh.Repos[d.Repo]
+			if rp.Name == f.Repository && rp.ID == f.RepositoryID && d.D.Name == f.FileName {
+				counts[i] = len(f.LineMatches)
+			}
+		}
+	}
+	if strings.Join(got, ",") != strings.Join(sh.expectedFiles(q, sys, strict), ",") {
+		return nil, false, false
+	}
+	return counts, res.RepoURLs == nil, true
+}
+
+// typeRepoCases: `(type:repo child) AND rest` through the real typeRepoSearcher wrapped around the shard, for every
+// context, against the model (typeRepoSet then search restricted to the set) and the naive evaluator.
+func typeRepoCases(r *gen.Rand, wd *world, sh *shard, strict bool, class, reposEnc string, mixed bool, fixed *nq) {
+	trs := search_VerifTypeRepoSearcher(shardStreamer{sh.S})
+	n := 2
+	if fixed != nil {
+		n = 1
+	}
+	for k := 0; k < n; k++ {
+		child := genQuery(r, wd, 1, false)
+		rest := genQuery(r, wd, 1, false)
+		if k == 1 {
+			rest = &nq{Kind: "const", Val: true}
+		}
+		if fixed != nil {
+			child, rest = fixed.Kids[0].Kids[0], fixed.Kids[1]
+		}
+		cc, earlyChild, ok1 := sysCounts(sh, child, strict)
+		rc, _, ok2 := sysCounts(sh, rest, strict)
+		if !ok1 || !ok2 {
+			continue // reported by the plain search cases of the same query kinds
+		}
+		kind, err := index_VerifSimplifyKind(sh.S, child.toQ())
+		if err != nil {
+			panic(err)
+		}
+		full := &nq{Kind: "and", Kids: []*nq{{Kind: "typerepo", Kids: []*nq{child}}, rest}}
+		Q := full.toQ()
+		for _, c := range allCtx {
+			det := gen.Detail(detail{World: wd, Query: Q.String(), NQ: full, Ctx: c.String(), Strict: strict, Op: "typerepo-search"})
+			res, err := trs.Search(mkCtx(c), Q, &zoekt.SearchOptions{})
+			if err != nil {
+				w.Emit(gen.Case{Go: "search error: " + err.Error(), Key: "search-error", Class: class, Detail: det})
+				continue
+			}
+			var fs []string
+			for _, f := range res.Files {
+				fs = append(fs, fmt.Sprintf("%s:%d:%s", tok(f.Repository), f.RepositoryID, tok(f.FileName)))
+			}
+			cs := gen.Case{
+				In:   fmt.Sprintf("trsearch %s %s %s %s %s %s %s", b01(strict), c, kind, b01(earlyChild), reposEnc, sh.encodeDocs(cc), sh.encodeDocs(rc)),
+				Impl: "files=" + joinOrDash(fs), Class: class + "/typerepo-" + kind, Nontrivial: mixed && len(fs) > 0, Detail: det,
+			}
+			// naive expectation: List selects by name among what the context itself may see
+			found := map[string]bool{}
+			for _, d := range sh.Docs {
+				rp := sh.Repos[d.Repo]
+				if rp.Tomb || !c.allowed(strict, rp.Tenant) {
+					continue
+				}
+				if kind == "true" || (kind == "other" && !d.D.FTomb && child.eval(rp, d.D, nil)) {
+					found[rp.Name] = true
+				}
+			}
+			if kind == "true" {
+				for _, rp := range sh.Repos {
+					if !rp.Tomb && c.allowed(strict, rp.Tenant) {
+						found[rp.Name] = true
+					}
+				}
+			}
+			var want []string
+			for _, d := range sh.Docs {
+				rp := sh.Repos[d.Repo]
+				if rp.Tomb || d.D.FTomb || !c.allowed(strict, rp.Tenant) {
+					continue
+				}
+				if found[rp.Name] && rest.eval(rp, d.D, nil) {
+					want = append(want, fmt.Sprintf("%s:%d:%s", tok(rp.Name), rp.ID, tok(d.D.Name)))
+				}
+			}
+			if bad := foreignMarkers(res, c, strict); len(bad) > 0 {
+				cs.Go = fmt.Sprintf("type:repo search result for context %s carries data of other tenants: %v", c, bad)
+				cs.Key = "typerepo-search-carries-foreign-marker/" + leakChannel(res, c, strict)
+			} else if strings.Join(fs, ",") != strings.Join(want, ",") {
+				cs.Go = fmt.Sprintf("context %s, %s: got files %v, expected %v", c, Q, fs, want)
+				cs.Key = "typerepo-files-differ-from-naive-evaluator"
+			}
+			w.Emit(cs)
+		}
 	}
 }
 
@@ -444,7 +573,7 @@ func main() {
 				}
 			}
 		}
-		runShardCases(r.Fork(), &wd, i%8 != 7, 3-len(fixed)/2, fixed)
+		runShardCases(r.Fork(), &wd, i%8 != 7, 3-len(fixed)/2, fixed, nil)
 	}
 	nDirs := f.N(4, 40)
 	for i := 0; i < nDirs; i++ {
@@ -476,8 +605,13 @@ func replay(path string) error {
 	switch {
 	case len(d.Worlds) > 0:
 		runEndToEndWorlds(r, d.Worlds, d.Strict, []*nq{d.NQ})
+	case d.World != nil && d.NQ != nil && d.NQ.hasTypeRepo():
+		if d.NQ.Kind != "and" || len(d.NQ.Kids) != 2 || d.NQ.Kids[0].Kind != "typerepo" {
+			return fmt.Errorf("%s: unsupported type:repo shape at shard level", path)
+		}
+		runShardCases(r, d.World, d.Strict, 0, nil, d.NQ)
 	case d.World != nil && d.NQ != nil:
-		runShardCases(r, d.World, d.Strict, 0, []*nq{d.NQ})
+		runShardCases(r, d.World, d.Strict, 0, []*nq{d.NQ}, nil)
 	default:
 		return fmt.Errorf("%s: no world/query in the replay file", path)
 	}
